@@ -44,8 +44,7 @@ impl<T: IoBuf> IoBuf for Uninit<T> {
 
 impl<T: IoBufMut> IoBufMut for Uninit<T> {
     fn as_uninit(&mut self) -> &mut [MaybeUninit<u8>] {
-        let len = (*self).buf_len();
-        &mut self.0.as_uninit()[len..]
+        self.0.as_uninit()
     }
 
     fn reserve(&mut self, len: usize) -> Result<(), ReserveError> {
